@@ -2,7 +2,7 @@
 """Re-evaluate every seeded mutant against the current tree and (re)write its meta.json."""
 import json, os, subprocess, sys, glob
 ROOT = os.path.dirname(os.path.dirname(os.path.abspath(__file__)))
-EXTRA = {'C02-1': ['C22'], 'C22-1': ['C02', 'C01']}
+EXTRA = {'C02-1': ['C22'], 'C22-1': ['C02', 'C01'], 'C09-2': ['C07'], 'C20-1': ['C02'], 'C18-2': ['C21']}
 only = sys.argv[1:]
 for d in sorted(glob.glob(os.path.join(ROOT, 'seeded', '*'))):
     name = os.path.basename(d)
@@ -27,7 +27,8 @@ for d in sorted(glob.glob(os.path.join(ROOT, 'seeded', '*'))):
             'patch_applies': res.get('apply'), 'test_suite_with_patch': suite,
         },
         'checks': {k[6:]: v for k, v in res.items() if k.startswith('check_')},
-        'detected': any(v['exit'] == 1 for k, v in res.items() if k.startswith('check_' + pid)),
+        'detected': any(v['exit'] == 1 for k, v in res.items() if k.startswith('check_')),
+        'detected_by_own_check': any(v['exit'] == 1 for k, v in res.items() if k.startswith('check_' + pid)),
         'what_was_run': 'tools/eval_seeded.py: scratch worktree of /repo HEAD outside /repo and /verif, git apply patch.diff, '
                         'demo.py on both trees, ./check <id> with MIROS_REPO pointing at the patched worktree; worktree removed',
     }
